@@ -12,11 +12,11 @@ def plan(tier, seed):
     if tier == "quick":
         progs = SK.family_f1(quick=True) + SK.family_f6() + [SK.random_program(rng, 5000 + i) for i in range(60)]
         opts = {"maxiter": 2, "maxraise": 1, "kinds": ["tuple", "list", "gen", "short"], "maxpaths": 6, "seed": seed,
-                "variants": ["tooled", "inplace", "singles", "all", "generic"], "gen_drive": True}
+                "variants": ["tooled", "inplace", "singles", "all", "generic", "totals"], "gen_drive": True}
     else:
         progs = SK.family_f1(quick=False) + SK.family_f6() + [SK.random_program(rng, 5000 + i) for i in range(1500)]
         opts = {"maxiter": 2, "maxraise": 1, "kinds": ALLKINDS, "maxpaths": 40, "seed": seed, "raise_E": True,
-                "variants": ["tooled", "inplace", "singles", "all", "generic", "pairs"], "gen_drive": True}
+                "variants": ["tooled", "inplace", "singles", "all", "generic", "pairs", "totals"], "gen_drive": True}
     return progs, opts
 
 
